@@ -71,6 +71,16 @@ func c02Scenarios(tier string) []*Scenario {
 							}
 							scs = append(scs, c02Scenario(pol, mx, bo, codes, stop, k))
 						}
+						// other ways to fail than "exit 1": killed by a signal nobody here sent (-1), exit 2
+						if bits != 0 && pol != "no" && pol != "" && (tier == "thorough" || (bo == 1 && mx < 2)) {
+							for _, alt := range []int{-1, 2} {
+								c2 := make([]int, l)
+								for i := range codes {
+									c2[i] = codes[i] * alt
+								}
+								scs = append(scs, c02Scenario(pol, mx, bo, c2, "none", k))
+							}
+						}
 					}
 				}
 			}
